@@ -13,6 +13,8 @@ CHECKS = {
     "C03": ("Lean 4 proof (symmetries of the reversal scan) + model/code correspondence",
             "Theorems about find_turns (scan = numpy formulation, negation/affine equivariance, non-reversal insertion, NaN re-indexing); correspondence on all difference-sign patterns up to length 7 (thorough: 10); refinement/negation/affine/Series-index relations evaluated on the real detectors.", "5 C03"),
 }
+CHECKS["C09"] = ("machine-checked proof (Lean 4 + Mathlib, real analysis / list induction) about an executable model, tied to the code by correspondence testing and a direct property oracle",
+    "Proof (Lean 4, kernel-checked) over R of: mutual inverses, branch consistency at N = 10^3 and at the endurance knee, continuity, strict antitonicity in the finite range and infinity at/below endurance for the P_RAM and P_RAJ component Woehler curves; the P_RAM formula with the guideline mean-stress factor and constants; lifetime = literal damage accumulation (x = (1-D1)/D2 unique, 1+x passes, early-failure index = first prefix sum >= 1, by list induction); the three gamma_L formulas against restated guideline definitions. The safety index is partial: beta = -(unique root of Phi(x) = P_A) for abstract strictly increasing Phi; convergence of scipy's root search is measured per run. The model is hand-written and tied to the code by differential testing (bit-exact for constants, P_RAM rows and dyadic damage tables, 1e-11 otherwise) plus a direct property oracle.", "5 C09")
 PENDING = {}
 def main():
     props = [json.loads(l) for l in open(os.path.join(HERE, "properties.jsonl"))]
